@@ -1141,6 +1141,26 @@ pub fn check(rec: &RunRecord) -> Vec<Violation> {
                         .filter(|((s, e), _)| *s < end.step && !matches!(e, TruthEv::Restored { .. } | TruthEv::Start | TruthEv::Stop))
                         .map(|(_, t)| *t)
                         .last();
+                    // The read task has no outstanding vote for a full period after every envelope it received: one that a
+                    // remote (attached before) had written completely at an earlier simulated instant than the stop was
+                    // received then (simulated time only passes while every task is idle).
+                    let last_env = rec
+                        .hist
+                        .sent
+                        .iter()
+                        .filter(|s| s.epoch == 0 && s.ok && matches!(s.op, Op::Cmd { .. } | Op::Link { .. } | Op::Sync { .. } | Op::Unlink { .. }))
+                        .filter(|s| rec.hist.attached.iter().any(|(st, p)| *p == s.peer && *st < s.start))
+                        .filter(|s| !matches!(peer_info(rec, s.peer), PeerInfo { closed_write: Some(c), .. } if c <= s.start))
+                        .filter(|s| s.end_ms < stop_ms)
+                        .map(|s| (s.end, s.end_ms))
+                        .max_by_key(|(_, ms)| *ms);
+                    if let Some((step, ms)) = last_env {
+                        if stop_ms < ms + sc.knobs.inactive_timeout_ms {
+                            out.push(Violation::new("C17", "C17.stopped_while_active", "envelope", format!(
+                                "the agent stopped by itself at {stop_ms} ms although a remote had written an envelope to it at {ms} ms (step {step}), less than the inactivity period of {} ms before: the read task cannot have had a vote outstanding",
+                                sc.knobs.inactive_timeout_ms)));
+                        }
+                    }
                     if let Some((step, ms)) = last {
                         if stop_ms < ms + sc.knobs.inactive_timeout_ms {
                             out.push(Violation::new("C17", "C17.stopped_while_active", "agent", format!(
